@@ -63,7 +63,7 @@ func verifC01Draw() (*verifC01In, *oidc.IDTokenClaims) {
 	in.offset = time.Duration(nd.Int("v.offset", -(1 << 56), 1<<56))
 	in.maxIAT = time.Duration(nd.Int("v.maxiat", 0, 1<<56))
 	in.maxAge = time.Duration(nd.Int("v.maxage", 0, 1<<56))
-	in.nonceMode = nd.Choice("noncemode", 3)
+	in.nonceMode = nd.Choice("noncemode", nd.Param("noncemodes", 3))
 	in.nonceWant = nd.Str("v.nonce")
 	in.acrMode = nd.Choice("acrmode", nd.Param("maxacr", 2)+1)
 	for i := 0; i < in.acrMode; i++ {
@@ -220,7 +220,7 @@ func VerifC01Tokens() {
 		if !hasKind {
 			nd.Assume(false)
 		}
-		nd.Assume(in.atHash == nd.Hash(kind, access, true))
+		in.atHash = nd.Hash(kind, access, true)
 	case 2:
 		if hasKind {
 			nd.Assume(in.atHash != nd.Hash(kind, access, true))
